@@ -1380,7 +1380,7 @@ ADAPTERS = (
 )
 
 
-def result_fate(fn, call, prog=None, maxhops=12):
+def result_fate(fn, call, prog=None, maxhops=12, via=None):
     """What happens to the Result produced by `call` in fn:
        'try'      flows (through moves and the repo's result adapters) into Try::branch   (`?`)
        'returned' is moved into _0 (tail expression)
@@ -1435,6 +1435,8 @@ def result_fate(fn, call, prog=None, maxhops=12):
                     if d.endswith('ops::try_trait::Try::branch'):
                         return 'try'
                     r = f.get('res') or d
+                    if via is not None:
+                        via.append(r)
                     if d in ADAPTERS or r in ADAPTERS or any(d.endswith(x.split('::')[-1]) and ('Result' in d or 'ActorContext' in d or 'AsActorError' in d or 'Context' in d) for x in ADAPTERS):
                         work.append(t[3][0])
                     elif d.endswith('::unwrap') or d.endswith('::expect') or d.endswith('::unwrap_or_default') or d.endswith('::unwrap_or'):
@@ -1444,6 +1446,12 @@ def result_fate(fn, call, prog=None, maxhops=12):
                         if rank['passed'] > rank[fate]:
                             fate = 'passed'
     return fate
+
+
+def result_via(fn, call):
+    """(fate, callees the Result of `call` is handed to on its way, adapters included)"""
+    via = []
+    return result_fate(fn, call, via=via), via
 
 
 # --------------------------------------------------------------------------- path-sensitive exploration
